@@ -102,7 +102,9 @@ func H_generate() {
 	vStub("os.ReadDir", func(name string) ([]os.DirEntry, error) { fsReads = append(fsReads, name); return nil, errors.New("no such dir") })
 	opts := &GenerateOptions{Tags: tags, PrefixOutputFile: prefix}
 	if withHeader {
-		opts.Header = []byte("// HEADER\n")
+		// as read by ioutil.ReadFile: a slice with spare capacity
+		h := make([]byte, 0, 512)
+		opts.Header = append(h, "// HEADER\n"...)
 	}
 	res, errs := Generate(nil, "/wd", nil, []string{"./..."}, opts)
 
@@ -130,13 +132,12 @@ func H_generate() {
 			vA("C17", len(r.Content) > 0, "a cleanly analysed package with injectors yields content")
 			vA("C17", vIff(len(r.Errs) > 0, fmtFails[i]), "only a gofmt failure adds an error to a package that analysed cleanly")
 			vA("C18", strings.Contains(txt, "//+build !wireinject\n") || strings.Contains(txt, "//go:build !wireinject\n"), "generated files always carry the !wireinject constraint, whatever the tags")
-			vA("C01", strings.Contains(txt, fmt.Sprintf("\npackage p%d\n", i)), "generated file declares the package's own name")
+			vA("C01,C17", strings.Contains(txt, fmt.Sprintf("\npackage p%d\n", i)), "generated file declares the package's own name")
+			vA("C17", strings.Contains(txt, fmt.Sprintf("func Inject%d() {}", i)), "each package's content is its own (results of one invocation do not share storage)")
 			if withHeader {
+				// the header leads the file; whether it went through gofmt with the rest is not prescribed
 				hdr := "// HEADER\n"
-				if !vConcBool(fmtFails[i]) {
-					hdr = "/*fmt*/" + hdr
-				}
-				vA("C17", strings.HasPrefix(txt, hdr), "the header is prepended verbatim")
+				vA("C17", strings.HasPrefix(txt, hdr) || strings.HasPrefix(txt, "/*fmt*/"+hdr), "the header is prepended verbatim")
 			}
 			if tags != "" {
 				vA("C18", strings.Contains(txt, fmt.Sprintf("gen -tags \"%s\"", tags)), "the go:generate line reproduces the tags")
